@@ -109,13 +109,13 @@ def config_h_dir():
     return d
 
 
-def build_harness(name, main_src, B, H, extra_flags=(), with_repo_main=False, sanitize=True, extra_srcs=()):
+def build_harness(name, main_src, B, H, extra_flags=(), with_repo_main=False, sanitize=True, extra_srcs=(), opt="-O1"):
     """compile one flavour of a harness binary from /repo's working tree; cached by content hash. returns (path|None, log)"""
     srcs = repo_sources(with_main=with_repo_main)
     hsrcs = ([os.path.join(HARNESS, main_src)] if main_src else []) + [os.path.join(HARNESS, s) for s in extra_srcs]
     headers = glob.glob(os.path.join(REPO, "**", "*.h"), recursive=True) + glob.glob(os.path.join(HARNESS, "**", "*.h"), recursive=True)
     headers = [h for h in headers if "/_build/" not in h]
-    flags = ["-std=gnu++17", "-O1", "-g", "-w", "-pthread", "-DWENCRY_VERIF", f"-DWENCRY_VERIF_BUF_SZ={B}", f"-DWENCRY_VERIF_HBUF_SZ={H}", "-DOPT_ON",
+    flags = ["-std=gnu++17", opt, "-g", "-w", "-pthread", "-DWENCRY_VERIF", f"-DWENCRY_VERIF_BUF_SZ={B}", f"-DWENCRY_VERIF_HBUF_SZ={H}", "-DOPT_ON",
              f"-I{HARNESS}", f"-I{config_h_dir()}"] + repo_includes() + (SAN if sanitize else []) + list(extra_flags)
     dig = tree_digest(srcs + hsrcs + headers + [os.path.join(REPO, "config.h.in")], " ".join(flags) + name)
     out = os.path.join(BUILD, f"{name}_{dig}")
